@@ -137,3 +137,23 @@ Theorem C05_wf_repeat_run_sound : forall ks ops s1,
   run_wf true s1 = (s1, WValue) /\ run_wf false (er s1) = (er s1, WValue).
 Proof. exact repeat_run_sound. Qed.
 Print Assumptions C05_wf_repeat_run_sound.
+
+(* The twin statement over whole histories, under the guard "whenever a run is served from the workflow's
+   cache, every child has run on the inputs it shows" -- for EVERY workflow and EVERY history that keeps the
+   guard, the cached workflow and its uncached twin return the same and show the same outputs and flags after
+   every operation.  The two known findings are histories that break the guard (refutations above). *)
+Theorem C05_wf_twin_if_hits_settled_partial : forall ks ops, hits_settled (winit ks) ops ->
+  wtrace true (winit ks) ops = wtrace false (winit ks) ops.
+Proof. exact wf_twin_if_hits_settled. Qed.
+Print Assumptions C05_wf_twin_if_hits_settled_partial.
+
+(* non-vacuity: a history with wiring, hits, an input change and a failure keeps the guard (decided by the
+   boolean checker, which is sound) -- and the histories of the two known findings break it *)
+Example C05_wf_guard_holds_somewhere :
+  hits_settled (winit ks3) [WConnect 1 0; WRun; WRun; WAssign 0 4; WRun; WRun; WAssign 2 (-1); WRun; WClear; WAssign 2 6; WRun; WRun].
+Proof. apply hits_settledb_sound. vm_compute. reflexivity. Qed.
+
+Example C05_wf_known_findings_break_the_guard :
+  hits_settledb (winit ks3) [WConnect 2 0; WRun; WConnect 2 1; WRun] = false /\
+  hits_settledb (winit ks3) [WConnect 1 0; WRun; WAssign 1 (-2); WRun; WDisconnect 1; WRun] = false.
+Proof. split; vm_compute; reflexivity. Qed.
